@@ -6,6 +6,7 @@ import BigtoolsModel.BedZoomCompose
 import BigtoolsModel.WigSections
 import BigtoolsModel.Stats2
 import BigtoolsModel.BBIWrite
+import BigtoolsModel.FileOf
 import BigtoolsModel.AutoSqlNTest
 /-! Driver commands `wig` and `bed`: the property-level observables of a written file, computed from the input
     by the model's specification-level functions (the byte-level writer/reader models are proved equal to
@@ -246,7 +247,16 @@ def wigBytesCase (c : Case) : List String :=
     if c.opt "compress" "0" != "0" then ["BYTES na"] else
     let sorted := (z.toArray.qsort (· < ·)).toList.take 10
     let bytes := BW.writeBigWig ⟨nat (c.opt "ips" "1024"), nat (c.opt "bs" "256"), sorted⟩ inp
-    [s!"BYTES {bytes.length} {hex16 (fnv64 bytes)}"] ++ (if c.opt "dump" "0" == "1" then [s!"HEX {hex bytes}"] else [])
+    -- the theorem-carrying model `BBI.fileOf` (subject of `wig_model_roundtrip`) with the zoom / summary areas of
+    -- these bytes must reproduce them exactly: then the round-trip theorem speaks about this very file
+    let cs : List BBI.ChromIn := inp.map fun ch => ⟨ch.1, ch.2.1, ch.2.2.map fun x => ⟨x.s, x.e, BW.floatBits 8 23 x.v⟩⟩
+    let zc := (bytes.drop 6).headD 0 + 256 * (bytes.drop 7).headD 0
+    let mk (tail : List Nat) : BBI.WOpts :=
+      ⟨nat (c.opt "ips" "1024"), nat (c.opt "bs" "256"), zc, 344, 304, 0, (bytes.drop 64).take 288, tail⟩
+    let f0 := BBI.fileOf (mk []) cs
+    let same := (BBI.fileOf (mk (bytes.drop f0.bytes.length)) cs).bytes == bytes
+    [s!"BYTES {bytes.length} {hex16 (fnv64 bytes)}", s!"FILEOF {if same then "eq" else "differs"}"] ++
+      (if c.opt "dump" "0" == "1" then [s!"HEX {hex bytes}"] else [])
   | _, _ => ["BYTES na"]
 
 end Drv
